@@ -48,7 +48,8 @@ ROUTINE = {1: "iterate_children", 2: "__len__", 3: "first_child", 4: "last_child
            10: "iterate_following_siblings", 11: "fetch_preceding_sibling", 12: "iterate_preceding_siblings",
            13: "iterate_descendants", 14: "last_descendant", 15: "iterate_ancestors", 16: "depth",
            17: "iterate_following", 18: "iterate_preceding", 19: "full_text", 20: "traverse_bf_ltr_ttb",
-           21: "traverse_df_ltr_btt", 22: "traverse_df_ltr_ttb", 23: "_sort_nodes_in_document_order"}
+           21: "traverse_df_ltr_btt", 22: "traverse_df_ltr_ttb", 23: "_sort_nodes_in_document_order",
+           24: "fetch_following", 25: "fetch_preceding"}
 
 DOCS = ['<r>a<x/>b<!--c-->d<y>e<z/>f</y>g</r>', '<r><x/><y/></r>', '<r>t</r>', '<r/>',
         '<r><a><!--c--></a><x>1<i/>2<?p q?>3</x>4<y/>5</r>', '<r><!--c--><x><y><z>t</z></y></x><?p q?></r>',
@@ -298,6 +299,8 @@ def real_frames(d, ambient, to_sort):
                 out[(i, 15, fi)] = call(lambda: list(n.iterate_ancestors(*F)), e_ids)
                 out[(i, 17, fi)] = call(lambda: list(n.iterate_following(*F)), e_ids)
                 out[(i, 18, fi)] = call(lambda: list(n.iterate_preceding(*F)), e_ids)
+                out[(i, 24, fi)] = call(lambda: n.fetch_following(*F), e_opt)
+                out[(i, 25, fi)] = call(lambda: n.fetch_preceding(*F), e_opt)
                 out[(i, 20, fi)] = call(lambda: list(bf(n, *F)), e_ids)
                 out[(i, 21, fi)] = call(lambda: list(btt(n, *F)), e_ids)
                 out[(i, 22, fi)] = call(lambda: list(ttb(n, *F)), e_ids)
@@ -523,7 +526,7 @@ def run(ctx, args):
     return ctx.finish(
         rule="trees: %d parsed documents + parentless comment / PI / text node / element + trees reached by random histories of 1-8 public-API edits (append/prepend/"
              "insert/add_following/add_preceding/detach/replace/merge_text_nodes with strings, TextNodes, tags, comments, "
-             "PIs, tag() definitions, re-attached detached subtrees); on every node: 23 navigation routines under 6 ambient "
+             "PIs, tag() definitions, re-attached detached subtrees); on every node: 25 navigation routines under 6 ambient "
              "filters x 5 passed filters, all indices -(k+1)..k and 6 slices; correspondence against Conc/CNav.v for all, "
              "direct comparison with Tree/ANav.v under the ambient filters none/default/tags. evaluations = API results "
              "compared. Non-trivial = tree with more than one node; distinct by concrete structure (ids, slots, chains)."
